@@ -169,3 +169,18 @@ M("c15.dry-run-undefined-no-events", "C15", MOD, "                        if dry
 M("c15.steps-announced-after-first-step", "C15", MOD, "        if run_scenario or runner.config.show_skipped:\n            for step in self:\n                for formatter in runner.formatters:\n                    formatter.step(step)",
   "        if run_scenario or runner.config.show_skipped:\n            for step in list(self)[:1]:\n                for formatter in runner.formatters:\n                    formatter.step(step)")
 M("c15.jsonparser-duplicates-background", "C15", "behave/json_parser.py", "                                  background_steps=[])", "                                  )")
+
+# ---- C16 -------------------------------------------------------------------
+JU = "behave/reporter/junit.py"
+M("c16.cdata-terminator-not-escaped", "C16", JU, "    text = text.replace(u']]>', u']]&gt;')\n", "")
+M("c16.invalid-chars-not-escaped-in-cdata", "C16", JU, "    text = text.replace(u']]>', u']]&gt;')\n    return _escape_invalid_xml_chars(text)", "    text = text.replace(u']]>', u']]&gt;')\n    return text")
+M("c16.failed-counter-not-incremented", "C16", JU, "            # -- NOTE: Scenario may fail due to ...\n            report.counts_failed += 1", "            # -- NOTE: Scenario may fail due to ...\n            pass")
+M("c16.tests-counted-unconditionally", "C16", JU, "        if scenario.status != Status.skipped or self.show_skipped:\n            # -- NOTE: Count only", "        if True:\n            # -- NOTE: Count only")
+M("c16.outline-rows-skipped", "C16", JU, "        for scenario in scenario_outline:\n            assert isinstance(scenario, Scenario)\n            self._process_scenario(scenario, report)",
+  "        for scenario in list(scenario_outline)[:1]:\n            assert isinstance(scenario, Scenario)\n            self._process_scenario(scenario, report)")
+M("c16.attr-not-escaped", "C16", JU, '        case.set(u"name", escape_attribute(scenario.name or ""))', '        case.set(u"name", scenario.name or "")')
+M("c16.hook-error-as-failure", "C16", JU, "        if scenario.status.is_error():\n", "        if scenario.status is Status.error:\n")
+M("c16.status-attr-from-feature", "C16", JU, '        case.set(u"status", scenario.status.name)', '        case.set(u"status", feature.status.name)')
+M("c16.skipped-counter-when-hidden", "C16", JU, "        elif scenario.status in skipped_statuses and self.show_skipped:\n            report.counts_skipped += 1",
+  "        elif scenario.status in skipped_statuses:\n            report.counts_skipped += 1")
+M("c16.cleanup-error-crash", "C16", JU, '(scenario.error_message or "").strip()', 'scenario.error_message.strip()')
